@@ -14,6 +14,10 @@ func (b *Bounds) Extend(b2 *Bounds) {
 	if b2 == nil || b2.Empty() {
 		return
 	}
+	if b.Empty() {
+		b.Min, b.Max = b2.Min, b2.Max
+		return
+	}
 	b.extendPoint(b2.Min)
 	b.extendPoint(b2.Max)
 }
